@@ -6,7 +6,7 @@
 (*   "outcome":"result"|"error"|"returned"|"panic"|"neither"|"both"|"hang", *)
 (*   "input":..,"vars":..,"detail":..}                                      *)
 (***************************************************************************)
-EXTENDS Outcome, Json, TLC, Sequences
+EXTENDS Outcome, Json, TLC, Sequences, Held
 VARIABLE l
 Trace == ndJsonDeserialize("trace.ndjson")
 Why(e) == CASE e.outcome = "panic"   -> "the call panicked instead of returning a result or an error; "
@@ -20,7 +20,8 @@ Next ==
   /\ l' = l + 1
   /\ LET e == Trace[l] IN
      /\ Return(e.kind, e.outcome)
-     /\ (Good(e.kind, e.outcome) \/ PrintT("VERIF-FAIL " \o ToString(l) \o " " \o Why(e) \o "## " \o e.api))
+     /\ ((Good(e.kind, e.outcome) /\ HeldFails(e) = "")
+         \/ PrintT("VERIF-FAIL " \o ToString(l) \o " " \o (IF Good(e.kind, e.outcome) THEN "" ELSE Why(e)) \o HeldFails(e) \o "## " \o e.api))
 Spec == Init /\ [][Next]_<<l, calls, bad>>
 Accepted == TLCGet("stats").diameter - 1 = Len(Trace)
 =============================================================================
